@@ -444,7 +444,7 @@ MP = "accelforge/mapper/FFM/_make_pmappings/make_pmappings.py"
 CP = "accelforge/mapper/FFM/_join_pmappings/compress_pmappings.py"
 MTS = "accelforge/mapper/FFM/_make_pmappings/make_pmappings_from_templates/make_tile_shapes.py"
 VARIANTS = [
-    {"kind": "F", "name": "flags-popped-out-of-the-cache-key", "rule": "C20-K1", "edits": [(MAIN, "            return _make_pmappings(**kwargs)\n", "            return _make_pmappings(**kwargs, **unhashed)\n"), (MAIN, "        @mem.cache", "        unhashed = {k: kwargs.pop(k) for k in (\"print_progress\", \"one_pbar_only\", \"can_combine_multiple_runs\")}\n\n        @mem.cache")]},
+    {"kind": "F", "name": "flags-popped-out-of-the-cache-key", "rule": "C20-K1", "edits": [(MAIN, "            return _make_pmappings(**kwargs)\n", "            return _make_pmappings(**kwargs, **unhashed)\n"), (MAIN, "        @joblib.Memory(location=os.path.join(cache_dir), compress=True).cache", "        unhashed = {k: kwargs.pop(k) for k in (\"print_progress\", \"one_pbar_only\", \"can_combine_multiple_runs\")}\n\n        @joblib.Memory(location=os.path.join(cache_dir), compress=True).cache")]},
     {"kind": "F", "name": "dirty-prune-in-place", "rule": "C20-W2", "edits": [("accelforge/mapper/FFM/_join_pmappings/join_pmappings.py", "                resource_usage_tolerance=resource_usage_tolerance,\n                inplace=False,\n            ),", "                resource_usage_tolerance=resource_usage_tolerance,\n            ),")]},
     {"kind": "F", "name": "reintroduce-unordered-extend", "rule": "C20-U1", "edits": [
         (MP, '        pbar=f"Generating pmappings" if print_progress or one_pbar_only else None,\n    ):',
